@@ -150,6 +150,20 @@ def c07_witnesses(tier='quick'):
         other = [v for v in ['LessViolated', 'GreaterViolated', 'NotEmptyViolated', 'FiniteViolated', 'RegexViolated', 'LessOrEqualViolated']
                  if v not in variants][0]
         add(f'c07-{fam}-undeclared-kind', prog(variants + [other]), {'fail': ['E0599']}, None, f'variant {other} of an undeclared validator does not exist')
+    # one variant per declared validator presupposes one validator per kind: a repeated kind is refused in every family
+    # (two rules could not be told apart by the single variant of that kind)
+    dup = {
+        'int': ('i32', ['greater = 1, greater = 2', 'predicate = |x| *x != 4, predicate = |x| *x != 5', 'less = 9, greater = 1, less = 8']),
+        'float': ('f64', ['finite, finite', 'less = 1.0, less = 2.0', 'predicate = |x| *x != 4.0, predicate = |x| *x != 5.0']),
+        'string': ('String', ['not_empty, not_empty', 'len_char_max = 5, len_char_max = 6', 'predicate = |s| s.len() != 4, predicate = |s| s.len() != 5']),
+        'any': ('Vec<i32>', ['predicate = |v| !v.is_empty(), predicate = |v| v.len() < 9', 'predicate = |v| !v.is_empty(), predicate = |v| !v.is_empty()']),
+        'any-generic': ('Vec<T>', ['predicate = |v| !v.is_empty(), predicate = |v| v.len() < 9']),
+    }
+    for fam, (inner, attrs) in dup.items():
+        g = '<T>' if 'T' in inner.replace('Vec', '') else ''
+        for i, a in enumerate(attrs):
+            add(f'c07-{fam}-repeated-kind-{i}', HEAD + f'use nutype::nutype;\n#[nutype(validate({a}))]\npub struct T{g}({inner});\n', {'fail': None, 'msg': None}, None,
+                f'{fam}: `validate({a})` repeats a validator kind: refused')
     return ws
 
 
@@ -196,6 +210,21 @@ def c15_witnesses(tier='quick'):
         src = corpus.crate_source(c)
         ws.append({'id': f'c15-{cn}', 'cfg': 'nostd', 'src': src, 'expect': 'pass', 'line': None,
                    'what': f'#![no_std] crate with {len(c["decls"])} integer/float/other declarations compiles against nutype without the std feature'})
+    # the same crate without the serde / arbitrary derives, against a crate graph in which nothing links std
+    import copy
+    for cn, c in crates.items():
+        if c['std']:
+            continue
+        c2 = copy.deepcopy(c)
+        keep = []
+        for d in c2['decls']:
+            d['derives'] = [x for x in d['derives'] if x not in ('Serialize', 'Deserialize', 'Arbitrary')]
+            keep.append(d)
+        c2['decls'] = keep
+        ws.append({'id': f'c15-{cn}-pure', 'cfg': 'nostd0', 'src': corpus.crate_source(c2), 'expect': 'pass', 'line': None,
+                   'what': f'the same #![no_std] crate without serde/arbitrary derives compiles with no std-linking crate in the graph'})
+    ws.append({'id': 'c15-control-std-method', 'cfg': 'nostd0', 'src': HEAD_NOSTD + 'pub fn f(x: f64) -> f64 { x.mul_add(1.0, 0.0) }\n',
+               'expect': {'fail': ['E0599']}, 'line': None, 'what': 'control: a std-only inherent float method does not resolve when nothing links std'})
     # positive control: the same setup must reject a std path (keeps the witness honest)
     ws.append({'id': 'c15-control-std-path', 'cfg': 'nostd', 'src': HEAD_NOSTD + 'pub fn f() -> ::std::vec::Vec<u8> { ::std::vec::Vec::new() }\n',
                'expect': {'fail': ['E0433']}, 'line': None, 'what': 'control: a `::std::` path does not resolve in the no_std witness setup'})
